@@ -2,18 +2,18 @@ CONSTANTS
   NH = 2
   MaxBufs = 3
   Statics <- cStatics
-  OpKinds <- cOpsCore
-  StrArgs <- cStrS3
+  OpKinds <- cOpsAll
+  StrArgs <- cStrS2
   CharArgs <- cChars
-  Caps = {0, 17, 30}
+  Caps = {0, 30}
   IdxMode = "few"
   RetainPats <- cRetain
-  ItemSeqs <- cItems
-  Hints = {0}
-  FailMode = 0
+  ItemSeqs <- cItems2
+  Hints = {0, 20}
+  FailMode = 1
   PanicMode = 0
-  Seeds <- cSeedsEmpty
-  MaxSteps = 3
+  Seeds <- cSeedsAll
+  MaxSteps = 2
 SPECIFICATION Spec
 VIEW View
 INVARIANTS ModelTypeOK NoUninitRead
